@@ -210,7 +210,22 @@ fn main() {
     let timeout = Duration::from_secs((prop.timeout_s)(tier));
     let tmp = report::verif_dir().join("target").join("tmp");
     let _ = std::fs::create_dir_all(&tmp);
-    let exe = std::env::current_exe().expect("current_exe");
+    // Workers run from a private copy of the binary: a concurrent rebuild (another check started while a long
+    // run is in progress) replaces target/release/fv and must not change or break the workers of this run.
+    let exe = {
+        let src = std::env::current_exe().expect("current_exe");
+        let dst = tmp.join(format!("fv-{}", std::process::id()));
+        match std::fs::copy(&src, &dst) {
+            Ok(_) => dst,
+            Err(_) => src,
+        }
+    };
+    let private_exe = exe.clone();
+    let cleanup = move || {
+        if private_exe.starts_with(report::verif_dir().join("target").join("tmp")) {
+            let _ = std::fs::remove_file(&private_exe);
+        }
+    };
     let spawn = |s: u64, tracefile: Option<&std::path::Path>| {
         let outp = tmp.join(format!("{}-{}-{}.json", prop.id, std::process::id(), s));
         let _ = std::fs::remove_file(&outp);
@@ -254,6 +269,7 @@ fn main() {
                                 if st.code() == Some(101) {
                                     // an uncaught panic in the harness itself (falcon panics are caught): machinery
                                     eprintln!("MACHINERY: worker {} panicked in harness code (exit 101); run `fv {} {} --shard {}/{}` to see it", s, prop.id, tier.name(), s, n);
+                                    let _ = std::fs::remove_file(report::verif_dir().join("target").join("tmp").join(format!("fv-{}", std::process::id())));
                                     std::process::exit(2);
                                 }
                                 failed.push((*s, format!("worker exit status {:?}", st)))
@@ -341,6 +357,7 @@ fn main() {
             }
         }
     }
+    cleanup();
     if machinery_failure {
         std::process::exit(2)
     }
